@@ -11,5 +11,7 @@ CONSTANTS
   MaxFaults = 5
   SubsInit = {FALSE}
   MaySubscribe = TRUE
+  RestoreReqs = {2}
+  Loose = FALSE
   Guarded = TRUE
 CHECK_DEADLOCK FALSE
